@@ -343,6 +343,20 @@ def classify(tr, v):
     if act == "Xfer":
         e = tr["ev"][line - 1]
         return "traffic:%s:%s" % (e["dir"], "not-intact" if not e["ok"] else "size")
+    if kind == "inv" and len(why) > 1:
+        name, e = why[1], tr["ev"][line - 1]
+        if name == "Obey":
+            bad = why[2][1] if isinstance(why[2], tuple) and why[2][0] == "set" else why[2]
+            f = sorted(bad, key=lambda u: (u["layer"], u["dir"]))[0]
+            what = ""
+            if act == "Llc":
+                what = ":" + (e["t"] + ("(%s)" % "+".join(sorted({p["t"] for p in e["inner"]})) if e["inner"] else e["t"]))
+            return "Obey:%s:%s%s:exceeds-receiver-limit-by-%d" % (f["layer"], f["dir"], what, f["size"] - f["limit"])
+        if name in ("Timeouts", "LtoKept"):
+            return "%s:%s" % (name, e.get("side"))
+        if name == "Delivered":
+            return "Delivered:%s:%s" % (e.get("kind"), e.get("dir"))
+        return "%s@%s" % (name, act)
     return "%s@%s" % (kind, act)
 
 
@@ -366,7 +380,37 @@ def mutate_for_selftest(tr):
     return out
 
 
-WITNESSES = ["W_Psl", "W_NoPsl", "W_Down", "W_Acm", "W_MaxMiu"]
+def mutate_traffic_selftest(tr):
+    """a recorded full-traffic trace with one LLC information field enlarged beyond the receiver's MIU / with the
+    CC announcement dropped must be flagged by Obey / change the limit"""
+    t1 = json.loads(json.dumps(tr))
+    miu = {"IT": tr["const"]["cfg"]["miuT"], "TI": tr["const"]["cfg"]["miuI"]}
+    for e in t1["ev"]:
+        if e["a"] == "Llc" and e["t"] == "AGF":
+            e["info"] = miu[e["dir"]] + 1
+            break
+    t1["id"] += "-agf+1"
+    t2 = json.loads(json.dumps(tr))
+    for e in t2["ev"]:
+        if e["a"] == "Waits" and e["cyc"]:
+            e["cyc"][0] += 13560
+            break
+    t2["id"] += "-wait+1ms"
+    return [t1, t2]
+
+
+WITNESSES = ["W_Psl", "W_NoPsl", "W_Down", "W_Acm", "W_MaxMiu", "W_ConnLim", "W_Full"]
+INVS = ["Obey", "BitRate", "Timeouts", "LtoKept", "Delivered"]
+
+
+def full_traffic(kind, k, seed, quick):
+    """which configurations get the full traffic phase (run loops + applications): the whole (miu, lto) and
+    (lsc, agf, snep) products, a quarter (thorough: all) of the NFC-DEP product, a sample of the big sub-grids"""
+    if kind in ("ml", "opt"):
+        return True
+    if kind == "dep":
+        return (k + seed) % 4 == 0 if quick else True
+    return (k + seed) % 64 == 0
 
 
 def run(tier, seed):
@@ -390,21 +434,40 @@ def run(tier, seed):
     for kind in kinds:
         big = kind in ("depx", "llcp")
         for k in range(SIZE[kind]):
-            items.append((kind, k, (k % 16 == seed % 16) if big else (k % 2 == seed % 2 or kind == "dep")))
+            items.append((kind, k, full_traffic(kind, k, seed, quick)))
     traces = record(items)
     grid = sum(SIZE[kd] for kd in kinds)
     distinct = len({json.dumps(t["const"]["cfg"], sort_keys=True) for t in traces})
     # the number of initial states TLC enumerated is distinct/2 (each configuration has one successor)
     exhaustive = len(traces) == grid and r.distinct == 2 * distinct
-    self_t = mutate_for_selftest(next(t for t in traces if len(t["ev"]) > 3))
-    verdicts, st = tlc.validate_traces("Trace_P2pNeg.tla", "Trace_P2pNeg.cfg", PID, traces + self_t,
+    self_t = mutate_for_selftest(next(t for t in traces if any(e["a"] == "Frame" for e in t["ev"])))
+    self_f = mutate_traffic_selftest(next(t for t in traces if any(e["a"] == "Llc" and e["t"] == "AGF" for e in t["ev"])
+                                          and any(e["a"] == "Waits" and e["cyc"] for e in t["ev"])))
+    verdicts, st = tlc.validate_traces("Trace_P2pNeg.tla", "Trace_P2pNeg.cfg", PID, traces + self_t + self_f,
                                        shards=16, timeout=900 if quick else 3000)
     for t in self_t:
         if verdicts[t["id"]][0] == "ACCEPT":
             raise tlc.TLCError("binding vacuous: corrupted trace %s accepted" % t["id"])
-    acc = nframes = nx = nup = 0
+    for t, inv in zip(self_f, ("Obey", "Timeouts")):
+        if (t["id"] + "#" + inv) not in verdicts:
+            raise tlc.TLCError("binding vacuous: %s not flagged by %s" % (t["id"], inv))
+    acc = nframes = nx = nup = nllc = nfull = 0
     for tr in traces:
         v = verdicts[tr["id"]]
+        nllc += sum(1 + len(e["inner"]) for e in tr["ev"] if e["a"] == "Llc")
+        nfull += 1 if any(e["a"] == "Dep" for e in tr["ev"]) else 0
+        nframes += sum(f["n"] for e in tr["ev"] if e["a"] == "Dep" for f in e["frames"])
+        if tr.get("errors"):
+            ck.violation("traffic:application-call-failed:%s" % tr["errors"][0].split(":")[0],
+                         "configuration %s: %s" % (tr["id"], tr["errors"][:3]),
+                         replay=dict(kind=tr["const"]["kind"], k=tr["const"]["k"], full=True))
+        for inv in INVS:
+            w = verdicts.get(tr["id"] + "#" + inv)
+            if w is not None:
+                ck.violation(classify(tr, w), "configuration %s: event %d (%s) %s ; cfg=%s ; event=%s" % (
+                    tr["id"], w[1], w[2], json.dumps(w[3], default=list)[:600], json.dumps(tr["const"]["cfg"]),
+                    json.dumps(tr["ev"][w[1] - 1])[:500]),
+                    replay=dict(kind=tr["const"]["kind"], k=tr["const"]["k"], full=True))
         nframes += sum(1 for e in tr["ev"] if e["a"] == "Frame")
         nx += sum(1 for e in tr["ev"] if e["a"] == "Xfer")
         nup += 1 if tr["ev"][0]["ok"] else 0
@@ -413,12 +476,14 @@ def run(tier, seed):
             continue
         ck.violation(classify(tr, v), "configuration %s: event %d (%s) %s ; cfg=%s ; event=%s" % (
             tr["id"], v[1], v[2], json.dumps(v[3], default=list)[:600], json.dumps(tr["const"]["cfg"]),
-            json.dumps(tr["ev"][v[1] - 1])[:500]), replay=dict(kind=tr["const"]["kind"], k=tr["const"]["k"]))
-    ck.cover(traces_validated_against_impl=acc, activations=len(traces), activated=nup, grid_size=grid,
+            json.dumps(tr["ev"][v[1] - 1])[:500]),
+            replay=dict(kind=tr["const"]["kind"], k=tr["const"]["k"], full=any(e["a"] == "Dep" for e in tr["ev"])))
+    ck.cover(full_traffic_runs=nfull, llc_pdus_checked=nllc,traces_validated_against_impl=acc, activations=len(traces), activated=nup, grid_size=grid,
              distinct_configurations=distinct, tlc_initial_states=r.distinct // 2,
              exhaustive_over_structured_grid=exhaustive, full_product_size="~1.1e8 (not enumerated)",
              traffic_frames_monitored=nframes, llcp_pdus_transferred=nx, trace_states=st["states"],
-             binding_selftest="altered send-miu, dropped Activate and oversize frame all rejected")
+             binding_selftest="altered send-miu, dropped Activate, oversize frame rejected; AGF information field + 1 "
+                              "flagged by Obey, timeout + 1 ms flagged by Timeouts")
     ck.sample(dict(trace=traces[0]["id"], const=traces[0]["const"], activate=traces[0]["ev"][0]))
     ck.sample(dict(mc="P2pNeg grid " + "+".join(kinds), initial_states=r.distinct // 2))
     ck.assume("grid = full product of the NFC-DEP options (brs, acm, discovery technology, lri, lrt, rwt), full product of"
@@ -426,13 +491,18 @@ def run(tier, seed):
               " options cycling deterministically; thorough adds DEP x 16 LLCP samples and the full LLCP product",
               "valid options only: miu 128..2175, lto 10..2550 (lto >= 2560 wraps in the LTO TLV, miu < 128 or > 2175 is not encodable)",
               "no DID/NAD (connect() cannot set them); llcp-sec off (OpenSSL unavailable)",
+              "full traffic phase (real run loops; UI bursts of 3..5 datagrams at sendMIU-4m-2..+4, maximum-size I PDUs with"
+              " pending acknowledgements both ways, SNL batches) on the whole (miu, lto) and (lsc, agf, snep) products and a"
+              " part of the other sub-grids; the remaining configurations get one LLC PDU each way",
+              "limits are decoded from the air: general bytes (link MIU, LTO), ATR (LR, WT), CONNECT/CC (connection MIU)",
+              "fault-free air in C19 (faults: C04); the closing phase is checked at NFC-DEP level only",
               "both simulated devices support active communication mode; the target answers 106A+212F+424F or 212F+424F only")
     return ck.finish()
 
 
 def replay(rep, args):
     r = rep["replay"]
-    tr = activate_pair(r["kind"], r["k"], True)
+    tr = traffic_pair(r["kind"], r["k"]) if r.get("full") else activate_pair(r["kind"], r["k"], False)
     frames = tr["ev"][0].pop("act_frames", None)
     verdicts, st = tlc.validate_traces("Trace_P2pNeg.tla", "Trace_P2pNeg.cfg", PID + "_replay", [tr], shards=1)
     v = verdicts[tr["id"]]
@@ -440,8 +510,17 @@ def replay(rep, args):
     print("activation frames:", json.dumps(frames))
     print("activate event:", json.dumps(tr["ev"][0]))
     print("replay verdict:", json.dumps(v, default=list)[:1500])
+    rc = 0
     if v[0] != "ACCEPT":
         print("key:", classify(tr, v))
+        rc = 1
+    for inv in INVS:
+        w = verdicts.get(tr["id"] + "#" + inv)
+        if w is not None:
+            print("invariant %s violated at event %d: %s" % (inv, w[1], json.dumps(tr["ev"][w[1] - 1])[:600]))
+            print("  %s" % json.dumps(w[3], default=list)[:600])
+            print("key:", classify(tr, w))
+            rc = 1
+    if rc:
         print("VIOLATION property=%s replay=%s" % (PID, args.replay))
-        return 1
-    return 0
+    return rc
